@@ -191,6 +191,18 @@ func rulesC19(cx *Ctx) []Obligation {
 						if _, isPhi := r2.(*ssa.Phi); isPhi {
 							merged = "the parsed value is merged with another value (a default on failure)"
 						}
+						// the parsed integer becomes the assignment as it is: no arithmetic on it in the decoder (a reduction
+						// modulo some field would merge documents that differ in this field — gnark reduces modulo the
+						// circuit's own field when the witness is built)
+						if c2, isCall := r2.(*ssa.Call); isCall {
+							if name, isBig := bigMethod(c2); isBig {
+								switch name {
+								case "Cmp", "CmpAbs", "Sign", "IsUint64", "IsInt64", "BitLen", "String", "Text", "Uint64", "Int64", "Bit", "ProbablyPrime":
+								default:
+									merged = "the parsed value is transformed by (*big.Int)." + name + " before it becomes the assignment (documents differing in this field can decode alike)"
+								}
+							}
+						}
 					}
 				}
 				// the ok flag must not select a default
